@@ -80,6 +80,16 @@ Theorem template_fresh : forall t,
 Proof. exact TemplProofs.template_fresh. Qed.
 Print Assumptions template_fresh.
 
+(* whatever the tail flag of the enclosing code, every unquoted expression of a template (directly
+   in a list, an array or a hash, at any depth, or bare) is compiled with the tail flag off --
+   the precondition of the abstraction "its code pushes exactly one value" *)
+Theorem unquotes_not_tail : forall v tail b, In b (unq_tails tail v) -> b = false.
+Proof. exact TemplProofs.unquotes_not_tail. Qed.
+Print Assumptions unquotes_not_tail.
+
+Example ex_tails : unq_tails true (VArr [VList [VSym sym_unquote; VSym 10]; VList [VSym sym_splice; VSym 11]]) = [false; false].
+Proof. vm_compute. reflexivity. Qed.
+
 (* outside the property (a splice that is not inside a container): all elements are left *)
 Theorem bare_splice_pushes_all : forall rho e S,
     run rho (gen_sq (reify (TSpl e))) S =
